@@ -95,6 +95,8 @@ type frame struct {
 	locals   map[*ssa.Alloc]bool
 	iterOf   map[ssa.Value]*mapIter
 	sortPerm string
+	curBlock  *ssa.BasicBlock
+	curSplits []string // selection conditions of the incoming edges of the block being translated (join blocks only)
 }
 
 func (g *Gen) rejectf(format string, a ...interface{}) {
@@ -172,11 +174,25 @@ func (g *Gen) addObl(fr *frame, st *state, kind, anchor, detail string, pos toke
 
 // safety obligation; afterwards the path continues only if the check passed.
 func (g *Gen) safety(fr *frame, st *state, what, anchor string, pos token.Pos, cond string) {
-	g.addObl(fr, st, "safety", what+":"+anchor, what, pos, cond)
+	if fr != nil && fr.curBlock != nil && len(fr.curSplits) > 1 {
+		// at a join block: one obligation per incoming edge (same name, suffix .inN)
+		for i, sp := range fr.curSplits {
+			sst := &state{cur: "(and " + st.cur + " " + sp + ")", heap: st.heap}
+			g.addObl(fr, sst, "safety", fmt.Sprintf("%s:%s.in%d", what, anchor, i), what, pos, cond)
+		}
+	} else {
+		g.addObl(fr, st, "safety", what+":"+anchor, what, pos, cond)
+	}
+	g.safetyContinue(st, cond)
+}
+
+func (g *Gen) safetyContinue(st *state, cond string) {
 	nc := g.fresh("ok", "Bool")
 	g.assert("(= " + nc + " (and " + st.cur + " " + cond + "))")
 	st.cur = nc
 }
+
+func init() { _ = 0 }
 
 func constString(c *ssa.Const) string {
 	if c.Value == nil {
@@ -552,6 +568,14 @@ func (fr *frame) run(params []*Term, st0 *state) {
 			st = g.mergeStates(conds, sts, ex)
 		}
 		fr.in[b.Index] = st.clone()
+		fr.curBlock, fr.curSplits = b, nil
+		if _, isHead := fr.heads[b.Index]; !isHead && b.Index != 0 && len(b.Preds) >= 3 {
+			for _, p := range b.Preds {
+				if ps, ok := fr.out[p.Index]; ok && !fr.backEdge[[2]int{p.Index, b.Index}] {
+					fr.curSplits = append(fr.curSplits, "(and "+ps.cur+" "+fr.edge[[2]int{p.Index, b.Index}]+")")
+				}
+			}
+		}
 		if ord, isHead := fr.heads[b.Index]; isHead {
 			fr.enterLoop(b, ord, st)
 		}
@@ -749,22 +773,29 @@ func (fr *frame) loopObligations(b *ssa.BasicBlock, ord int) {
 			splits, splitTags = []string{"true"}, []string{""}
 		}
 		for _, inv := range ls.Invariants {
-			sc := &specCtx{fr: fr, st: est, old: fr.entryState(), block: b, phiPred: pi}
-			t := sc.tr(inv.Expr)
-			if sc.err != "" {
-				g.rejectf("loop %d invariant [%s] of %s: %s", ord, inv.Label, fr.key, sc.err)
-				continue
-			}
-			kind := "inv-entry"
-			if isBack {
-				kind = "inv-preserve"
-			}
-			for si, sp := range splits {
-				sst := est
-				if sp != "true" {
-					sst = &state{cur: "(and " + est.cur + " " + sp + ")", heap: est.heap}
+			conj := splitConj(inv.Expr)
+			for ci, cx := range conj {
+				sc := &specCtx{fr: fr, st: est, old: fr.entryState(), block: b, phiPred: pi}
+				t := sc.tr(cx)
+				if sc.err != "" {
+					g.rejectf("loop %d invariant [%s] of %s: %s", ord, inv.Label, fr.key, sc.err)
+					continue
 				}
-				g.addObl(fr, sst, "inv", fmt.Sprintf("loop%d[%s]/%s/from-b%s%s", ord, inv.Label, kind, edgeTag(fr, p, b), splitTags[si]), fmt.Sprintf("loop %d invariant %s (%s)", ord, inv.Label, kind), b.Instrs[0].Pos(), t)
+				kind := "inv-entry"
+				if isBack {
+					kind = "inv-preserve"
+				}
+				label := inv.Label
+				if len(conj) > 1 {
+					label = fmt.Sprintf("%s.%d", inv.Label, ci+1)
+				}
+				for si, sp := range splits {
+					sst := est
+					if sp != "true" {
+						sst = &state{cur: "(and " + est.cur + " " + sp + ")", heap: est.heap}
+					}
+					g.addObl(fr, sst, "inv", fmt.Sprintf("loop%d[%s]/%s/from-b%s%s", ord, label, kind, edgeTag(fr, p, b), splitTags[si]), fmt.Sprintf("loop %d invariant %s (%s)", ord, label, kind), b.Instrs[0].Pos(), t)
+				}
 			}
 		}
 		if isBack && ls.Decreases != nil {
@@ -810,6 +841,34 @@ func (fr *frame) autoRange(b *ssa.BasicBlock, ph *ssa.Phi, v string) string {
 		}
 	}
 	return "(<= (- 1) " + v + ")"
+}
+
+// splitConj splits a specification clause into its top-level conjuncts, looking through let binders:
+// (let (b) (and c1 c2)) -> (let (b) c1), (let (b) c2). Smaller goals are far easier for the solvers.
+func splitConj(x *core.Sexp) []*core.Sexp {
+	if x.IsAtom() || len(x.List) == 0 {
+		return []*core.Sexp{x}
+	}
+	switch x.Head() {
+	case "and":
+		var out []*core.Sexp
+		for _, c := range x.List[1:] {
+			out = append(out, splitConj(c)...)
+		}
+		if len(out) == 0 {
+			return []*core.Sexp{x}
+		}
+		return out
+	case "let":
+		if len(x.List) == 3 {
+			var out []*core.Sexp
+			for _, c := range splitConj(x.List[2]) {
+				out = append(out, core.L(core.A("let"), x.List[1], c))
+			}
+			return out
+		}
+	}
+	return []*core.Sexp{x}
 }
 
 // (horizon is reset by the caller)
